@@ -60,6 +60,8 @@ def build(rng, sid):
                     v &= 0x1ff
                 vals[f] = v
                 lines.append('set %d %s %d' % (idx, f, v))
+        if cls == 'IPv6' and idx == len(stack) - 1:
+            lines.append('set %d next_header 253' % idx)          # raw payload: 0 would announce a hop-by-hop header
         if cls == 'IP' and 'src_addr' not in vals:
             vals['src_addr'] = 0x0a000001
             lines.append('set %d src_addr %d' % (idx, 0x0a000001))
